@@ -75,8 +75,8 @@ impl CastlingRights {
     pub fn from_index(i: usize) -> Result<CastlingRights, Error> {
         match i {
             0 => Ok(CastlingRights::Neither),
-            1 => Ok(CastlingRights::KingSide),
-            2 => Ok(CastlingRights::QueenSide),
+            1 => Ok(CastlingRights::QueenSide),
+            2 => Ok(CastlingRights::KingSide),
             3 => Ok(CastlingRights::BothSides),
             _ => Err(Error::InvalidCastlingIndexRepresentation),
         }
